@@ -55,6 +55,8 @@ func (e Event) Class() string {
 		return fmt.Sprintf("chan(%s,%#x,%s)", e.C, e.N, strings.Join(e.Peers, "+"))
 	case "adv":
 		return fmt.Sprintf("adv(%s)", e.Rule)
+	case "fail-relay", "close-control":
+		return fmt.Sprintf("%s(%s)", e.K, e.C)
 	}
 
 	return e.K
@@ -86,6 +88,7 @@ type Exec struct {
 	Steps  int
 	// NoSweepP2C etc. let profiles narrow the sweep.
 	SkipDeadRelays bool
+	ServerClosed   bool
 }
 
 func (x *Exec) viol(tag, class string, ev Event, detail string) *Viol {
@@ -363,6 +366,9 @@ func (x *Exec) Apply(ev Event) *Viol { //nolint:gocyclo,cyclop,maintidx,gocognit
 
 		return nil
 	}
+	if v, ok := x.applyTeardown(ev, now); ok {
+		return v
+	}
 	panic("vtx: unknown event kind " + ev.K)
 }
 
@@ -566,4 +572,161 @@ func AdvanceMenu(m *Model, now time.Time, deltas []time.Duration, bys []time.Dur
 	}
 
 	return out
+}
+
+// applyTeardown handles the events that end allocations other than by protocol.
+func (x *Exec) applyTeardown(ev Event, now time.Time) (*Viol, bool) {
+	w, m := x.W, x.M
+	switch ev.K {
+	case "fail-relay":
+		// the relay socket / listener of the client's allocation reports an error
+		a := m.Allocs[ev.C]
+		x.Trace = append(x.Trace, ev.Class())
+		if a == nil {
+			return nil, true
+		}
+		if a.TCP {
+			if l := w.Net.ListenerAt(a.Relay.String()); l != nil {
+				l.FailAccept(fmt.Errorf("injected accept error"))
+			}
+		} else if s := w.Net.UDPAt(a.Relay.String()); s != nil {
+			s.FailRead(fmt.Errorf("injected read error"))
+		}
+		x.settle()
+		m.Drop(ev.C)
+
+		return nil, true
+	case "close-control":
+		c := w.C[ev.C]
+		x.Trace = append(x.Trace, ev.Class())
+		if c.Conn != nil {
+			_ = c.Conn.Close()
+			c.Gone = true
+			m.Gone[ev.C] = true
+			x.settle()
+			m.Drop(ev.C)
+		}
+
+		return nil, true
+	case "close-server":
+		x.Trace = append(x.Trace, ev.Class())
+		_ = w.Srv.Close()
+		x.settle()
+		x.ServerClosed = true
+		m.Closed = true
+		for name := range m.Allocs {
+			m.Drop(name)
+		}
+
+		return nil, true
+	}
+	_ = now
+
+	return nil, false
+}
+
+// settle lets the system reach quiescence; with slow lifecycle callbacks this
+// needs virtual time to pass.
+func (x *Exec) settle() {
+	synctest.Wait()
+	if x.W.Cfg.SlowCB > 0 {
+		for range 8 {
+			time.Sleep(x.W.Cfg.SlowCB)
+			synctest.Wait()
+		}
+	}
+}
+
+// CheckResources compares the open relay sockets / listeners with the model.
+func (x *Exec) CheckResources(ev Event) *Viol {
+	w, m := x.W, x.M
+	want := map[string]bool{}
+	for _, a := range m.Allocs {
+		pre := "udp:"
+		if a.TCP {
+			pre = "tcp:"
+		}
+		want[pre+a.Relay.String()] = true
+	}
+	got := map[string]bool{}
+	isRelay := func(s string) bool {
+		h, _, _ := net.SplitHostPort(s)
+		ip := net.ParseIP(h)
+
+		return ip != nil && (ip.Equal(w.Relay4) || ip.Equal(w.Relay6))
+	}
+	for _, s := range w.Net.OpenUDP() {
+		if isRelay(s) {
+			got["udp:"+s] = true
+		}
+	}
+	for _, s := range w.Net.OpenListeners() {
+		if isRelay(s) {
+			got["tcp:"+s] = true
+		}
+	}
+	for k := range got {
+		if !want[k] {
+			return x.viol("resources", "relay-socket-open-without-allocation", ev, k+" trace="+fmt.Sprint(x.Trace))
+		}
+	}
+	for k := range want {
+		if !got[k] {
+			return x.viol("resources", "relay-socket-of-live-allocation-closed", ev, k+" trace="+fmt.Sprint(x.Trace))
+		}
+	}
+
+	return nil
+}
+
+// CheckLifecycle checks that created/deleted callbacks pair up one-to-one and
+// that the outstanding ones are exactly the live entries of the model.
+func (x *Exec) CheckLifecycle(ev Event) *Viol {
+	w, m := x.W, x.M
+	open := map[string]int{}
+	for _, l := range w.Life {
+		f := strings.Fields(l)
+		kind := f[0]
+		key := kind[:len(kind)-1]
+		switch kind {
+		case "alloc+", "alloc-":
+			key += " " + f[1]
+		default:
+			key += " " + strings.Join(f[1:], " ")
+		}
+		if strings.HasSuffix(kind, "+") {
+			open[key]++
+			if open[key] > 1 {
+				return x.viol("lifecycle", "created-twice-without-delete:"+kind[:len(kind)-1], ev, key+" log="+fmt.Sprint(w.Life))
+			}
+		} else {
+			open[key]--
+			if open[key] < 0 {
+				return x.viol("lifecycle", "deleted-without-create-or-twice:"+kind[:len(kind)-1], ev, key+" log="+fmt.Sprint(w.Life))
+			}
+		}
+	}
+	want := map[string]bool{}
+	for cn, a := range m.Allocs {
+		src := w.C[cn].Addr.String()
+		want["alloc "+src] = true
+		for ip := range a.Perms {
+			want[fmt.Sprintf("perm %s %s %s", src, a.Relay, ip)] = true
+		}
+		for n, c := range a.Chans {
+			want[fmt.Sprintf("chan %s %s %s %#x", src, a.Relay, c.Peer, n)] = true
+		}
+	}
+	for k, n := range open {
+		if n == 1 && !want[k] {
+			return x.viol("lifecycle", "created-but-never-deleted:"+strings.Fields(k)[0], ev, k+" log="+fmt.Sprint(w.Life))
+		}
+	}
+	for k := range want {
+		if open[k] != 1 {
+			return x.viol("lifecycle", "live-entry-without-created-event:"+strings.Fields(k)[0], ev, k+" log="+fmt.Sprint(w.Life))
+		}
+	}
+
+	return nil
 }
